@@ -190,6 +190,7 @@ const prelude = `
 (define-fun imax ((a Int) (b Int)) Int (ite (>= a b) a b))
 (declare-fun dyn (Int) Int)
 (declare-fun payload (Int) Int)
+(declare-fun styp (Int) Int)
 (declare-fun strlen (Int) Int)
 (declare-fun band (Int Int) Int)
 (declare-fun bor (Int Int) Int)
